@@ -25,6 +25,7 @@ CONSTANTS
   DumpMod = 97
   NRepl = 17
   RichOnly = TRUE
+  NeedStruct = FALSE
   MaxRich = 1
   NCmtCls = 8
   NCppForms = 18
